@@ -355,6 +355,27 @@ inductive DbRes | ok | err | panic
 def dbUse (nilled : Bool) (s : Srv) : DbRes :=
   if s.dbOpen then .ok else if nilled then .panic else .err
 
+/-- `Overlay.TransmitMsg` for a message without instance (`overlay.go:176-215`) as far as user code
+is concerned: `newTreeNodeInstanceFromToken` (after `Overlay.Close`: an unlisted node that is closed
+already), `serviceManager.newProtocol` (`service.go:522-545`), `go pi.Dispatch()`,
+`RegisterProtocolInstance` (fails for an unlisted node).  `refuseFirst`: `newProtocol` tests
+`server.Closed()` before anything else (the code as it is); else only on the path of a protocol
+bound to a service. -/
+structure LateOut where
+  /-- the protocol's constructor ran -/
+  constructed : Bool
+  /-- a `Dispatch` routine was started -/
+  dispatching : Bool
+  /-- the instance is listed (so that `Close` / `Done` will shut it down) -/
+  registered : Bool
+  deriving DecidableEq, Repr
+
+def lateHandOver (refuseFirst closed serviceBound : Bool) : LateOut :=
+  if closed then
+    if refuseFirst || serviceBound then ⟨false, false, false⟩   -- "will not pass protocol once the server is closed"
+    else ⟨true, true, false⟩                                      -- instantiated, dispatching, then "doesn't exist"
+  else ⟨true, true, true⟩
+
 /-! ### line-protocol front end: named threads over the router model -/
 namespace Drv
 
@@ -743,6 +764,19 @@ def step (d : State) (toks : List String) : State × String :=
         (d, s!"returned={ns} listening={l.listening} late=0 listen-after={if (llStep l .listen).listening then "listening" else "returned"}")
       else (d, "bad-op")
     | _, _ => (d, "bad-op")
+  | ["lnfault", k, a] =>
+    -- k `Accept` calls of the router's listener fail (the process is out of file descriptors), then a
+    -- peers connect, then `Stop`.  The accept loop goes on after every such error
+    -- (`c10_listener_survives_accept_errors`), `Stop` returns (`c10_listener_stop_terminates`) and
+    -- closes what was accepted (`c10_all_closed`)
+    match k.toNat?, a.toNat? with
+    | some k, some a =>
+      if k = 0 ∨ k > 8 ∨ a > 4 ∨ d.tr ≠ "tcp" ∨ !d.threads.isEmpty ∨ !d.core.conns.isEmpty then (d, "bad-op") else
+      let acts : List LnAct := [.listen] ++ (List.replicate k [LnAct.acceptErr, .checkQuit]).flatten ++
+        List.replicate a .accept ++ [.stopCall, .stopLock 0, .acceptErr, .checkQuit, .quitShake 0, .stopFinish 0]
+      let l := lnRun {} acts
+      (d, s!"faults={k} accepted={l.handed} stopped={l.stops == [.returned]} open=0 listening={l.listening}")
+    | _, _ => (d, "bad-op")
   | ["multi", n, m] =>
     -- one peer holds n connections with the router (both sides dialled, it dialled again, …); m of
     -- them end, one after the other, and are removed from the table; then `Stop`.  The table lists
@@ -768,6 +802,20 @@ def step (d : State) (toks : List String) : State × String :=
         let r := match dbUse false sv with | .ok => "ok" | .err => "err" | .panic => "panic"
         ({ d with dbBusy := false }, s!"save={r} load={r}")
       else (d, "bad-op")
+    | none => (d, "bad-op")
+  | ["srvlate"] =>
+    -- a peer's protocol message over a tree the server does not know is parked, the tree arrives, and
+    -- the routine that hands the message over runs only after `Server.Close` has returned: the node
+    -- it gets is closed and unlisted, `newProtocol` refuses (`lateHandOver`), nothing reaches user code
+    match d.srv with
+    | some (sv, ov) =>
+      if !sv.routerUp ∨ d.dbBusy then (d, "bad-op") else
+      let (sv', res) := serverClose sv
+      let ov' := (ovStep ov .close).getD ov
+      let j := d.ws.stops.length
+      let late := lateHandOver true true false
+      ({ d with srv := some (sv', ov'), ws := wsRun d.ws [.stopCall, .stopLock j, .handshake j] },
+        s!"close={match res with | .ok => "ok" | .err => "err"} late-instances={if late.constructed then 1 else 0} insts={(ov'.insts.filter (·.listed)).length} dispatchers={(ov'.insts.filter (·.bound)).length + (if late.dispatching then 1 else 0)}")
     | none => (d, "bad-op")
   | ["srvstate"] =>
     -- what the server holds on to: the peer-side port (a real port on TCP only), the client-side
